@@ -94,6 +94,57 @@ def case_string(case):
     return case.split(":", k)[k]
 
 
+def shrink_long(hbin, runner, case, kind, unesc_chars):
+    """Shrink a P/Q case on a long text with single-case runs only: cut characters off the end of the text (behind the last offset)
+    and off its start (before the first offset, the offsets move along), in halving steps, while the case still fails in the same way."""
+    if case[:1] not in ("P", "Q"):
+        return case
+    nf = 2 if case[0] == "P" else 3
+    parts = case.split(":", nf)
+    try:
+        offs = [int(x) for x in parts[1:nf]]
+    except ValueError:
+        return case
+    chars = unesc_chars(parts[nf])
+    nbytes = lambda cs: sum(1 if (len(c) == 2 and c[0] == "\\") else len(c.encode("utf-8")) for c in cs)
+
+    def build(cs, os_):
+        return ":".join([case[0]] + [str(o) for o in os_] + ["".join(cs)])
+
+    def fails(cs, os_):
+        m, _ = one_case(hbin, runner, build(cs, os_))
+        return any(x["kind"] == kind for x in m)
+
+    def index_of(cs, byte):     # number of chars in front of byte offset `byte`
+        acc, i = 0, 0
+        while i < len(cs) and acc < byte:
+            acc += nbytes([cs[i]]); i += 1
+        return i
+    runs = 0
+    # the tail
+    step = (len(chars) - index_of(chars, max(offs))) // 2
+    while step >= 1 and runs < 60:
+        hi = index_of(chars, max(offs))
+        if len(chars) - step >= hi and step <= len(chars):
+            runs += 1
+            if fails(chars[:len(chars) - step], offs):
+                chars = chars[:len(chars) - step]
+                continue
+        step //= 2
+    # the head
+    step = index_of(chars, min(offs)) // 2
+    while step >= 1 and runs < 120:
+        lo = index_of(chars, min(offs))
+        if step <= lo:
+            runs += 1
+            cut = nbytes(chars[:step])
+            if fails(chars[step:], [o - cut for o in offs]):
+                chars, offs = chars[step:], [o - cut for o in offs]
+                continue
+        step //= 2
+    return build(chars, offs)
+
+
 def minimise(hbin, runner, case, kind):
     """Shrink the string of a failing case: re-run every case of each shorter string (one char removed) while some case of it still fails."""
     def unesc_chars(e):
@@ -107,7 +158,8 @@ def minimise(hbin, runner, case, kind):
     best_case = case
     cur = unesc_chars(case_string(case))
     if len(cur) > 80:
-        return case     # a long-line case: `one <string>` enumerates every offset pair of the string, far too many here
+        # a long-line case: `one <string>` enumerates every offset pair of the string, far too many here
+        return shrink_long(hbin, runner, case, kind, unesc_chars)
     improved = True
     while improved and len(cur) > 1:
         improved = False
@@ -211,12 +263,20 @@ def run(tier, seed, replay=None):
     for b in builds:
         budget, maxlen, n = long_plan[b]
         cmds += [(b, BIN[b], "long %d %d %d %d %d" % (seed, k, n, budget, maxlen)) for k in range(n)]
+    nm_note = ""
     for b in builds:
-        if b != "default" and tier != "quick":
+        if b == "default":
+            cmds += [(b, BIN[b], c) for c in base]
+        elif tier == "quick":
+            # without memchr: everything up to length 4, a quarter of the length-5 strings (which quarter depends on the seed), the random strings
+            q = seed % 4
+            cmds += [(b, BIN[b], c) for c in base if not c.startswith("exhaustive 5 ")]
+            cmds += [(b, BIN[b], "exhaustive 5 %d %d" % (q * shards + k, 4 * shards)) for k in range(shards)]
+            nm_note = "; without memchr the exhaustive sweep covers length <= 4 and a quarter of the strings of length 5"
+        else:
             # thorough: the length-7 sweep stays on the default build; without memchr up to length 6
             cmds += [(b, BIN[b], c) for c in base if not c.startswith("exhaustive 7 ")]
-        else:
-            cmds += [(b, BIN[b], c) for c in base]
+            nm_note = "; without memchr the exhaustive sweep stops at length 6"
     # run at most NPROC pipelines at a time
     mism, stats = [], {}
     for i in range(0, len(cmds), NPROC):
@@ -283,7 +343,7 @@ def run(tier, seed, replay=None):
                 "(per boundary x: `x-x,0-0` and `0-0[x-len]`, plus 2 random trees of 1-9 nodes per string; Pair::line_col of every pair, walked and flattened) and real nested parses "
                 "through pest::state whose last token ends before the end of the input (3 per string); plus random strings of "
                 "6-40 chars in four profiles (many short lines so that line numbers reach two digits, CR/CRLF-heavy, tabs+multi-byte, uniform) with all offsets and "
-                "a sample of pairs; all of it run twice, against pest with its default features and against pest built without memchr (rust/harness-nm, same harness source%s); plus long lines (see long_lines). Non-trivial = the text before the (end) offset contains a LF, CR, TAB or multi-byte char; distinct by case text; distinct_nontrivial is the larger of the two builds' counts (the same cases are run on both), evaluations is the sum." % (exhaustive_len, "" if tier == "quick" else "; without memchr the exhaustive sweep stops at length 6"),
+                "a sample of pairs; all of it run twice, against pest with its default features and against pest built without memchr (rust/harness-nm, same harness source%s); plus long lines (see long_lines). Non-trivial = the text before the (end) offset contains a LF, CR, TAB or multi-byte char; distinct by case text; distinct_nontrivial is the larger of the two builds' counts (the same cases are run on both), evaluations is the sum." % (exhaustive_len, nm_note),
         "builds": {b: BUILD_NAME[b] for b in builds},
         "evaluations_per_build": {b: stats.get(b + "_evaluations", 0) + stats.get("long_" + b + "_evaluations", 0) for b in builds},
         "long_lines": {"what": "texts with one or two lines of 1030..%d characters (ASCII / ASCII+2-byte / ASCII+4-byte+2-byte / ASCII+TAB; alone, after LF and CRLF lines, "
